@@ -13,7 +13,7 @@ func init() {
 	register(&Prop{
 		ID:    "C03",
 		Level: "exploration",
-		Rule: "case = (statement from the typed generator over the full language — scalar functions, aggregates, aliases, list/JSON indexing, IN, BETWEEN, ORDER BY, GROUP BY, LIMIT, PUT/REMOVE/DELETE; feature families switched per run — , generated store of 0..4 batches, batch size, cache switch). Each case is executed twice on equal simulated stores, once drained with Next and once with Batch; rows are compared by content in order (multiset inside ORDER BY tie runs), write statements by final store and mutation log. Row error with batch success, a panic or non-termination in one mode only, and any content difference are violations; batch-only error values are tolerated and counted. distinct_nontrivial counts distinct (plan-node chain, batch size, number of row polls, number of batch polls) among cases accepted by the planner that completed in at least one mode.",
+		Rule:  "case = (statement from the typed generator over the full language — scalar functions, aggregates, aliases, list/JSON indexing, IN, BETWEEN, ORDER BY, GROUP BY, LIMIT, PUT/REMOVE/DELETE; feature families switched per run — , generated store of 0..4 batches, batch size, cache switch). Each case is executed twice on equal simulated stores, once drained with Next and once with Batch; rows are compared by content in order (multiset inside ORDER BY tie runs), write statements by final store and mutation log. Row error with batch success, a panic or non-termination in one mode only, and any content difference are violations; batch-only error values are tolerated and counted. distinct_nontrivial counts distinct (plan-node chain, batch size, number of row polls, number of batch polls) among cases accepted by the planner that completed in at least one mode.",
 		Assumptions: []string{
 			"a batch-mode error where row mode completes is tolerated (vectorised evaluation cannot short-circuit & and |): the property allows this direction",
 			"quantile() is not generated (sketch-based)",
@@ -313,7 +313,10 @@ func shrinkQuery(sc *Scenario) []*Scenario {
 	}
 	for i := range q.Order {
 		i := i
-		mod(func(n *GSelect) bool { n.Order = append(append([]GOrder{}, n.Order[:i]...), n.Order[i+1:]...); return true })
+		mod(func(n *GSelect) bool {
+			n.Order = append(append([]GOrder{}, n.Order[:i]...), n.Order[i+1:]...)
+			return true
+		})
 	}
 	// drop a field that nothing refers to
 	for i := range q.Fields {
